@@ -1404,8 +1404,10 @@ func checkBatchHandlerForwardsRescanEvents(c *Ctx, rule string) {
 				if !ok || !strings.HasSuffix(tname, "chain."+short) {
 					continue
 				}
+				// the handling ends where the event loop goes round — or, where one event's handling is a private part of
+				// the handler (a method called from the loop), where that part returns
 				l := innermostLoopOf(loops, ta)
-				if l == nil {
+				if l == nil && f == fn {
 					continue
 				}
 				for _, b2 := range f.Blocks {
@@ -1439,7 +1441,11 @@ func checkBatchHandlerForwardsRescanEvents(c *Ctx, rule string) {
 							e2 := edgeFactOf(from, s2)
 							return e2 != nil && e2.Kind == "nil" && strings.Contains(e2.V.Type().String(), "rescanBatch")
 						}
-						q.LoopExit = func(from, to *ssa.BasicBlock) bool { return to == l.Header }
+						if l != nil {
+							q.LoopExit = func(from, to *ssa.BasicBlock) bool { return to == l.Header }
+						} else {
+							q.Target = func(i ssa.Instruction, _ *ssa.BasicBlock) bool { _, isR := i.(*ssa.Return); return isR }
+						}
 						hits := exploreFromBlock(q, b2.Succs[si], b2)
 						c.Check(rule, "batch-handler-forwards:"+short, ta.Pos(), len(hits) == 0,
 							"rescanBatchHandler can finish handling a "+short+" notification of a running batch without handing it on (w."+ch+"): rescanProgressHandler never learns that the rescan finished, so resendUnminedTxs is not started and the unconfirmed transactions are not re-offered after this synchronisation")
